@@ -1535,7 +1535,12 @@ impl KotoVm {
             }
             Str(s) => {
                 let index = signed_index_to_unsigned(index, s.len());
-                s.with_bounds(index..index + 1).into()
+                let Some(result) = s.with_bounds(index..index + 1) else {
+                    return runtime_error!(
+                        "indexing with ({index}) would result in invalid UTF-8 data"
+                    );
+                };
+                Str(result)
             }
             Range(r) => {
                 let result: KNumber = if index < 0 {
@@ -1632,11 +1637,19 @@ impl KotoVm {
             }
             Str(s) => {
                 let index = signed_index_to_unsigned(index, s.len());
-                if is_slice_to {
-                    s.with_bounds(0..index).into()
+                let bounds = if is_slice_to {
+                    0..index
                 } else {
-                    s.with_bounds(index..s.len()).into()
-                }
+                    index..s.len()
+                };
+                let Some(result) = s.with_bounds(bounds.clone()) else {
+                    return runtime_error!(
+                        "indexing with ({}..{}) would result in invalid UTF-8 data",
+                        bounds.start,
+                        bounds.end
+                    );
+                };
+                Str(result)
             }
             Map(m) if m.contains_meta_key(&index_op) => {
                 let size = self.get_value_size(value)?;
